@@ -8,6 +8,8 @@ import DaeVerif.C13.EPIndex
 import DaeVerif.C13.EPC
 import DaeVerif.C13.RouteProofs
 import DaeVerif.C13.BatchProofs
+import DaeVerif.C13.TQProgress
+import DaeVerif.C13.IngressProofs
 /-!
 # C13 — helper lemmas (index)
 
@@ -16,6 +18,8 @@ import DaeVerif.C13.BatchProofs
 * `KeysProofs`    — shape of the endpoint keys
 * `TQBasic`, `TQProd*`, `TQConv*`, `TQStep` — the inductive invariant of the repaired task-queue
   protocol: one preservation lemma per atomic step, `inv_reachable` at the end
+* `TQProgress`    — bounded progress: the head task of a flow runs within five steps of its convoy
+* `IngressProofs` — one reader goroutine + task queues: acceptance order = arrival order
 * `EPProofs`      — endpoint pool: closing discipline (`CloseOk`) and monotone facts (`Later`) for every
   operation, lifted to histories
 -/
